@@ -1066,3 +1066,17 @@ def drive_c15(ctx):
         for ev in actions.tz_child(z, ctx.seed + zi, 40 if ctx.quick else 200):
             rec.add(ev.pop('a'), P, nt=True, **ev)
     rec.add('SetTZ', P, **actions.set_tz('UTC'))
+
+
+# ---------------------------------------------------------------------------
+# C16  independence of history and of concurrent callers
+# ---------------------------------------------------------------------------
+@driver('C16')
+def drive_c16(ctx):
+    import heapdrv
+    import threads
+    rng = ctx.rng
+    for _ in range(12 if ctx.quick else 250):
+        heapdrv.run_session(ctx.rec, rng, ['C16'], rng.choice([8, 14, 25]))
+    scheds = ctx.gen.get('schedules')
+    threads.run(ctx, ['C16'], scheds, 6 if ctx.quick else 120)
